@@ -28,7 +28,7 @@ def f3_region(o):
 
 @st.composite
 def cases(draw, tier="quick"):
-    return dict(spec=draw(plotgen.plot_specs(thin=True, max_cells=3000 if tier == "quick" else 10000, max_fields=5)))
+    return dict(spec=draw(plotgen.plot_specs(thin=True, many=True, max_cells=3000 if tier == "quick" else 10000, max_fields=5)))
 
 
 def compact(case):
